@@ -15,6 +15,7 @@ import (
 	"bytes"
 	"io"
 	"math/rand"
+	"net"
 	"net/http"
 	"net/http/cookiejar"
 	"net/textproto"
@@ -25,7 +26,9 @@ import (
 	"sync"
 	"testing"
 
+	"github.com/imroc/req/v3/internal/altsvcutil"
 	"github.com/imroc/req/v3/internal/verifh"
+	"github.com/imroc/req/v3/pkg/altsvc"
 	"golang.org/x/net/publicsuffix"
 )
 
@@ -714,3 +717,64 @@ func c11LooseHostOf(s string) string {
 	return strings.ToLower((&url.URL{Host: s}).Hostname())
 }
 func c11LooseDomainOf(s string) string { return c11OracleDomain(c11LooseHostOf(s)) }
+
+// TestVerif_C11_alt ties Loop.convertHost to altsvcutil.ConvertURL — the only place where the
+// Alt-Svc machinery computes another authority for a request — and checks what keeps the policies'
+// view intact: ConvertURL returns a COPY and leaves the URL it was given alone.
+func TestVerif_C11_alt(t *testing.T) {
+	s := c11New(t, "alt",
+		"altsvcutil.ConvertURL(entry, url) on RFC authorities (names, IPv4, bracketed IPv6 with/without zone and port, empty port) x Alt-Svc entries whose host is empty / the origin's hostname in another case / a relative / unrelated and whose port is empty / the origin's / another: URL.Host of the result vs model convertHost; oracle: the input URL is not modified and the result is a different object; non-trivial = entry changes host or port")
+	r := s.Rand()
+	n := verifh.N(4000, 100000)
+	for i := 0; i < n; i++ {
+		var a c11Auth
+		for {
+			a = c11GenAuth(r, false)
+			if _, ok := c11OracleHost(a.render()); ok && a.wf && a.rfc {
+				break
+			}
+		}
+		host := a.render()
+		scheme := verifh.Pick(r, []string{"https", "https", "http"})
+		h0, p0, err := net.SplitHostPort(host)
+		if err != nil {
+			h0, p0 = host, map[string]string{"http": "80", "https": "443"}[scheme]
+		}
+		as := &altsvc.AltSvc{Protocol: "h2"}
+		switch r.Intn(5) {
+		case 0:
+		case 1:
+			as.Host = h0
+		case 2:
+			as.Host = c11FlipCase(r, h0)
+		case 3:
+			as.Host = strings.Trim(c11OracleHostOf(c11Vary(r, a, false).render()), "[]")
+		default:
+			as.Host = verifh.Pick(r, []string{"alt.example", "10.9.8.7", "::9", "cdn.evil.test"})
+		}
+		switch r.Intn(4) {
+		case 0:
+		case 1:
+			as.Port = p0
+		default:
+			as.Port = verifh.Pick(r, []string{"443", "8443", "80", "1", "65535"})
+		}
+		u := &url.URL{Scheme: scheme, Host: host, Path: "/p"}
+		before := *u
+		var out *url.URL
+		if p, bad := verifh.Safely(func() { out = altsvcutil.ConvertURL(as, u) }); bad {
+			s.Crash("c11alt "+c11EncScheme(scheme)+" "+verifh.Hex(host), host, p, "")
+			continue
+		}
+		ok := out != u && *u == before
+		changed := out.Host != host
+		if changed {
+			s.Count("converted")
+		} else {
+			s.Count("kept")
+		}
+		s.Case("c11alt "+c11EncScheme(scheme)+" "+verifh.Hex(host)+" "+verifh.Hex(as.Host)+" "+verifh.Hex(as.Port),
+			verifh.Hex(out.Host), ok, "", changed, scheme+"://"+host+" + alt-svc "+as.Host+":"+as.Port+" -> "+out.Host)
+	}
+	s.FinishRequire("converted", "kept")
+}
